@@ -35,6 +35,7 @@ import (
 	"github.com/hyperledger/aries-framework-go/pkg/didcomm/common/model"
 	"github.com/hyperledger/aries-framework-go/pkg/didcomm/common/service"
 	"github.com/hyperledger/aries-framework-go/pkg/didcomm/dispatcher/outbound"
+	"github.com/hyperledger/aries-framework-go/pkg/didcomm/packager"
 	"github.com/hyperledger/aries-framework-go/pkg/didcomm/protocol/mediator"
 	"github.com/hyperledger/aries-framework-go/pkg/didcomm/protocol/messagepickup"
 	"github.com/hyperledger/aries-framework-go/pkg/didcomm/transport"
@@ -472,6 +473,21 @@ type WrapCase struct {
 	// default profile (empty: Profile).  Profile is the profile the dispatcher is expected to select from them.
 	Accept  []string `json:"accept,omitempty"`
 	Default string   `json:"default,omitempty"`
+	// Primary: the primary packer of the sender's packager ("jwe-auth", "jwe-anon", "leg-auth", "leg-anon"; empty: the
+	// usual packager, JWE authcrypt first).  It packs everything when the selected profile has no packer of its own
+	// (application/didcomm-enc-env).
+	Primary string `json:"primary,omitempty"`
+}
+
+var primCoq = map[string]string{"jwe-auth": "JweAuth", "jwe-anon": "JweAnon", "leg-auth": "LegAuth", "leg-anon": "LegAnon"}
+
+// usesPrimary: the selected profile is one the packager has no packer for.
+func (c WrapCase) usesPrimary() bool { return c.Primary != "" && c.Profile == transport.MediaTypeV1EncryptedEnvelope }
+
+// expectFail is the harness's own statement: an authcrypt primary packer cannot pack a forward (no sender key), nor a
+// message without a sender key.
+func (c WrapCase) expectFail() bool {
+	return c.usesPrimary() && strings.HasSuffix(c.Primary, "auth") && (len(c.Routing) > 0 || !c.Auth)
 }
 
 var mtpCoq = map[string]string{
@@ -653,7 +669,21 @@ func (p *pool) newDispatcher(party int, enc, dflt string, cap *capT) *outbound.D
 
 // newDispatcherL: a dispatcher with a list of default profiles, and a connection recorder over the dispatcher's stores.
 func (p *pool) newDispatcherL(party int, enc string, dflts []string, cap *capT) (*outbound.Dispatcher, *connection.Recorder) {
-	pk, err := p.w.Parties[party].Packager(enc)
+	return p.newDispatcherP(party, enc, "", dflts, cap)
+}
+
+func (p *pool) newDispatcherP(party int, enc, prim string, dflts []string, cap *capT) (*outbound.Dispatcher, *connection.Recorder) {
+	var (
+		pk  *packager.Packager
+		err error
+	)
+
+	if prim == "" {
+		pk, err = p.w.Parties[party].Packager(enc)
+	} else {
+		pk, err = p.w.Parties[party].PackagerPrim(enc, prim)
+	}
+
 	if err != nil {
 		panic(err)
 	}
@@ -730,7 +760,9 @@ func sendOn(o *outbound.Dispatcher, cap *capT, dest *service.Destination) sender
 func (p *pool) freshSender(c WrapCase) sender {
 	cap := &capT{}
 
-	return sendOn(p.newDispatcher(c.Sender.Party, c.Enc, c.dflt(), cap), cap, p.newDest(c))
+	o, _ := p.newDispatcherP(c.Sender.Party, c.Enc, c.Primary, []string{c.dflt()}, cap)
+
+	return sendOn(o, cap, p.newDest(c))
 }
 
 func (p *pool) wrapOn(kind string, c WrapCase, snd sender, caseJSON interface{}, classExtra string, tr *hx.Trace) {
@@ -770,6 +802,11 @@ func (p *pool) wrapOn(kind string, c WrapCase, snd sender, caseJSON interface{},
 		}
 
 		senderName = sk.Name
+	}
+
+	coqSender := senderName
+	if c.usesPrimary() && strings.HasSuffix(c.Primary, "anon") {
+		senderName = 0 // an anoncrypt primary packer ignores the sender key: the recipient learns no sender
 	}
 
 	p.lastTodid = nil
@@ -895,8 +932,14 @@ func (p *pool) wrapOn(kind string, c WrapCase, snd sender, caseJSON interface{},
 	n := len(c.Routing)
 
 	if !sent {
-		fail("send-failed", fmt.Sprintf("Send failed: %v", sendErr))
+		if !c.expectFail() {
+			fail("send-failed", fmt.Sprintf("Send failed: %v", sendErr))
+		}
 	} else {
+		if c.expectFail() {
+			fail("send-not-refused", "a send that needs a sender key for a forward / an authcrypt pack without one went out")
+		}
+
 		if len(levels) != n+1 {
 			fail("chain-length", fmt.Sprintf("%d levels, expected %d", len(levels), n+1))
 		}
@@ -979,10 +1022,19 @@ func (p *pool) wrapOn(kind string, c WrapCase, snd sender, caseJSON interface{},
 		coqAuth = true // SendToDID has the sender key at hand; whether it uses it is the model's to say
 	}
 
-	coq := fmt.Sprintf("CW {| w_todid := %s; w_accept := %s; w_default := %s; w_auth := %s; w_kt := %s; w_enc := %s; w_style := %s; "+
+	prim := "JweAuth"
+	if c.Enc == "A256GCM" {
+		prim = "JweAnon"
+	}
+
+	if c.Primary != "" {
+		prim = primCoq[c.Primary]
+	}
+
+	coq := fmt.Sprintf("CW {| w_todid := %s; w_primary := "+prim+"; w_accept := %s; w_default := %s; w_auth := %s; w_kt := %s; w_enc := %s; w_style := %s; "+
 		"w_spar := %s; w_payload := %d; w_sender := %d; w_rcpts := %s; w_routing := %s; w_sent := %s; w_levels := %s |}",
 		td.coq(), hx.CoqList(acc), coqMtp(c.dflt()), hx.CoqBool(coqAuth), coqKT(sk.KT), c.Enc, coqStyle(c.Style),
-		hx.CoqNList(p.partyKeys(sparty)), payID, senderName,
+		hx.CoqNList(p.partyKeys(sparty)), payID, coqSender,
 		hx.CoqNList(rcptNames), hx.CoqList(hops), hx.CoqBool(sent), hx.CoqList(lvs))
 
 	tr.Put(&hx.Record{Kind: kind, Coq: coq, Case: caseJSON,
@@ -1943,9 +1995,14 @@ func (p *pool) randWrap(r *hx.Rng, viaMed bool) WrapCase {
 		c.Profile = effective(c.Accept, c.Default)
 
 		if c.Profile == transport.MediaTypeV1EncryptedEnvelope {
-			c.Accept = append(c.Accept, []string{transport.MediaTypeAIP2RFC0587Profile, transport.MediaTypeDIDCommV2Profile,
-				transport.MediaTypeV2EncryptedEnvelopeV1PlaintextPayload}[r.Intn(3)])
-			c.Profile = effective(c.Accept, c.Default)
+			if r.Bool() {
+				// selected: everything is packed by the primary packer of the sender's packager
+				c.Primary = []string{"jwe-auth", "jwe-anon", "jwe-anon", "leg-auth", "leg-anon", "leg-anon"}[r.Intn(6)]
+			} else {
+				c.Accept = append(c.Accept, []string{transport.MediaTypeAIP2RFC0587Profile, transport.MediaTypeDIDCommV2Profile,
+					transport.MediaTypeV2EncryptedEnvelopeV1PlaintextPayload}[r.Intn(3)])
+				c.Profile = effective(c.Accept, c.Default)
+			}
 		}
 
 		if len(c.Accept) == 0 {
@@ -1953,6 +2010,10 @@ func (p *pool) randWrap(r *hx.Rng, viaMed bool) WrapCase {
 		}
 	}
 	leg := legacyFamily(c.Profile)
+	if c.Primary != "" {
+		leg = strings.HasPrefix(c.Primary, "leg")
+	}
+
 	kt := env.Ed25519
 
 	if !leg {
@@ -1960,9 +2021,13 @@ func (p *pool) randWrap(r *hx.Rng, viaMed bool) WrapCase {
 	}
 
 	c.Auth = r.Intn(3) == 0
+	if c.Primary != "" {
+		c.Auth = r.Bool()
+	}
+
 	c.Enc = []string{"XC20P", "A256GCM", "A256CBC512", "A128CBC"}[r.Intn(4)]
 
-	if c.Auth && c.Enc == "A256GCM" {
+	if (c.Auth || c.Primary == "jwe-auth") && c.Enc == "A256GCM" {
 		c.Enc = "XC20P"
 	}
 
@@ -1991,6 +2056,9 @@ func (p *pool) randWrap(r *hx.Rng, viaMed bool) WrapCase {
 	}
 
 	nh := r.Intn(5)
+	if c.Primary != "" && strings.HasSuffix(c.Primary, "auth") && r.Intn(3) != 0 {
+		nh = 0 // (a routed send through an authcrypt primary packer is refused: keep those a minority)
+	}
 
 	for i := 0; i < nh; i++ {
 		hkt := kt
@@ -2151,6 +2219,75 @@ func (p *pool) systematicWraps(tr *hx.Trace) {
 	}
 }
 
+// systematicPrimary: application/didcomm-enc-env selected (accept list [JWM/1.0 or v1 plaintext, enc-env]), every
+// primary packer x {no sender key, sender key} x {1, 2 recipients} x hops 0..2, directly and through real mediators.
+func (p *pool) systematicPrimary(tr *hx.Trace) {
+	for _, prim := range []string{"jwe-auth", "jwe-anon", "leg-auth", "leg-anon"} {
+		leg := strings.HasPrefix(prim, "leg")
+		kt, low := env.Ed25519, transport.MediaTypeRFC0019EncryptedEnvelope
+
+		if !leg {
+			kt, low = env.X25519, transport.MediaTypeV1PlaintextPayload
+		}
+
+		for _, auth := range []bool{false, true} {
+			for _, nr := range []int{1, 2} {
+				for nh := 0; nh <= 2; nh++ {
+					c := WrapCase{Profile: transport.MediaTypeV1EncryptedEnvelope, Primary: prim, Enc: "XC20P", Style: "didkey",
+						Accept: []string{low, transport.MediaTypeV1EncryptedEnvelope, "application/unknown"}, Default: low,
+						Auth: auth, V2EP: nh == 2, PayClass: "small", PaySeed: 100 + nh + 10*nr, Sender: KeyRef{kt, 0, 1},
+						ViaMed: nh > 0 && nr == 1 && strings.HasSuffix(prim, "anon")}
+
+					for i := 0; i < nr; i++ {
+						c.Rcpts = append(c.Rcpts, KeyRef{kt, 1, i})
+					}
+
+					for i := 0; i < nh; i++ {
+						c.Routing = append(c.Routing, KeyRef{kt, 2 + i, 1})
+					}
+
+					p.runWrap("systematic", c, tr)
+				}
+			}
+		}
+	}
+}
+
+// systematicTodid: SendToDID over a connection record that exists before the first send, for every profile as the
+// record's only profile x {own peer DID shared, not}: two sends each (a v1 and a v2 message), one routing key; and over
+// no record, the document listing the profile, with another default of the same packer family.
+func (p *pool) systematicTodid(tr *hx.Trace) {
+	for _, prof := range profileNames() {
+		leg := legacyFamily(prof)
+		kt, other := env.Ed25519, transport.MediaTypeProfileDIDCommAIP1
+
+		if !leg {
+			kt, other = env.X25519, transport.MediaTypeV1PlaintextPayload
+		}
+
+		for k := 0; k < 3; k++ {
+			d := WrapCase{Profile: prof, Enc: "XC20P", Style: "didkey", Auth: true, PayClass: "small", Sender: KeyRef{kt, 0, 0},
+				Rcpts: []KeyRef{{kt, 1, 0}, {kt, 5, 1}}, Routing: []KeyRef{{kt, 3, 0}}}
+			sc := SeqCase{Mode: "todid", Dests: []WrapCase{d}, Defaults: []string{other},
+				Sends: []SeqSend{{Dest: 0, PayClass: "small", PaySeed: 200 + k}, {Dest: 0, PayClass: "v2", PaySeed: 210 + k}}}
+
+			switch k {
+			case 0:
+				sc.Dests[0].Accept = []string{other}
+				sc.Conns = []*ConnPre{{Profiles: []string{prof}, PeerInitial: true}}
+			case 1:
+				sc.Dests[0].Accept = []string{other}
+				sc.Conns = []*ConnPre{{Profiles: []string{prof}}}
+			default:
+				sc.Dests[0].Accept = []string{prof}
+				sc.Sends[0], sc.Sends[1] = sc.Sends[1], sc.Sends[0] // a v2 message first: the new record carries no profiles
+			}
+
+			p.runSeq("systematic", sc, tr)
+		}
+	}
+}
+
 func corpus(p *pool, dir string, tr *hx.Trace) {
 	if dir == "" {
 		return
@@ -2257,6 +2394,8 @@ func main() {
 	}
 
 	p.systematicWraps(tr)
+	p.systematicPrimary(tr)
+	p.systematicTodid(tr)
 
 	for i := 0; i < nWrap; i++ {
 		p.runWrap("random", p.randWrap(rng.Fork(uint64(i)), false), tr)
